@@ -98,6 +98,31 @@ theorem listed_frozen {s s' : St} {l : Label} (hs : step s l = some s') :
     cases a <;> simp only [sStep] at hd <;> (repeat' split at hd) <;> simp at hd <;>
       (try (obtain ⟨_, hd⟩ := hd)) <;> (try subst hd) <;> simp_all
 
+/-- the same for the number in "Canceled n pending threads.": `ncanc` is fixed when the signals thread takes
+    threadcount_mutex in `_cancel_pending_threads` and no other step changes it — the message says the same whether it is
+    printed with the mutex held (dsh.c as pinned) or after the mutex was released (C20-H4) -/
+theorem ncanc_frozen {s s' : St} {l : Label} (hs : step s l = some s') :
+    s'.ncanc = s.ncanc ∨ (l = .s .lock ∧ s.spc = .cancLock) := by
+  cases l with
+  | d a =>
+    left
+    have hd := step_d hs
+    cases a <;> simp only [dStep] at hd <;> (repeat' split at hd) <;> simp [roomTest, drainTest] at hd <;>
+      (try split at hd) <;> (try (obtain ⟨_, hd⟩ := hd)) <;> (try subst hd) <;> simp_all
+  | w i a =>
+    left
+    obtain ⟨p, q, _, rfl⟩ := w_facts (step_w hs)
+    cases a <;> rfl
+  | e a =>
+    left
+    have hd := step_e hs
+    cases a <;> simp only [eStep] at hd <;> (try split at hd) <;> simp at hd <;> subst hd <;> rfl
+  | g a => left; rw [g_step_frame (step_wd hs)]
+  | s a =>
+    have hd := step_s hs
+    cases a <;> simp only [sStep] at hd <;> (repeat' split at hd) <;> simp at hd <;>
+      (try (obtain ⟨_, hd⟩ := hd)) <;> (try subst hd) <;> simp_all
+
 /-- `k` clock readings in a row by the signals thread -/
 def times (v : Nat) (k : Nat) : List Label := List.replicate k (.s (.time v))
 
